@@ -394,8 +394,13 @@ class Enumerator:
         if k in st.facts:
             yield st, (st.facts[k] != flip)
             return
+        calls = [n for n in ast.walk(prim) if isinstance(n, ast.Call)] \
+            if has_call(prim) else []
         for truth in (True, False):
             s = st.fork()
+            for c in reversed(calls):
+                self._ev(s, 'call', c, line)
+                self._invalidate_call(s, c)
             s.facts[k] = truth
             s.conds.append(Cond(prim, truth, line, 'test', self.frame))
             yield s, (truth != flip)
